@@ -887,6 +887,18 @@ func formatExpr(e Expression, opts FormatOptions) string {
 	return exprSQL(e)
 }
 
+// formatOperand formats an operand, parenthesised when its outermost operator
+// binds less tightly than minPrec (see operandSQL).
+func formatOperand(e Expression, minPrec int, opts FormatOptions) string {
+	if e == nil {
+		return ""
+	}
+	if exprPrecedence(e) < minPrec {
+		return "(" + formatExpr(e, opts) + ")"
+	}
+	return formatExpr(e, opts)
+}
+
 // formatStmt formats a statement using Format if available, otherwise SQL().
 func formatStmt(s Statement, opts FormatOptions) string {
 	if s == nil {
@@ -1043,7 +1055,7 @@ func (b *BetweenExpression) Format(opts FormatOptions) string {
 	f := newFormatter(opts)
 	sb := f.sb
 
-	sb.WriteString(formatExpr(b.Expr, opts))
+	sb.WriteString(formatOperand(b.Expr, precComparison+1, opts))
 	sb.WriteString(" ")
 	if b.Not {
 		sb.WriteString(f.kw("NOT"))
@@ -1051,11 +1063,11 @@ func (b *BetweenExpression) Format(opts FormatOptions) string {
 	}
 	sb.WriteString(f.kw("BETWEEN"))
 	sb.WriteString(" ")
-	sb.WriteString(formatExpr(b.Lower, opts))
+	sb.WriteString(formatOperand(b.Lower, precComparison+1, opts))
 	sb.WriteString(" ")
 	sb.WriteString(f.kw("AND"))
 	sb.WriteString(" ")
-	sb.WriteString(formatExpr(b.Upper, opts))
+	sb.WriteString(formatOperand(b.Upper, precComparison+1, opts))
 
 	return f.result()
 }
@@ -1068,7 +1080,7 @@ func (i *InExpression) Format(opts FormatOptions) string {
 	f := newFormatter(opts)
 	sb := f.sb
 
-	sb.WriteString(formatExpr(i.Expr, opts))
+	sb.WriteString(formatOperand(i.Expr, precComparison+1, opts))
 	sb.WriteString(" ")
 	if i.Not {
 		sb.WriteString(f.kw("NOT"))
